@@ -108,7 +108,7 @@ pub fn main() -> ! {
         sigs.truncate(n);
     }
     let built = prepare(&sigs, jobs);
-    let ncases = run.pick(2usize, 3usize);
+    let ncases = run.pick(1usize, 2usize);
 
     if let Some(d) = run.replay_detail() {
         let variant = Variant::parse(d["variant"].as_str().unwrap_or("")).unwrap_or_else(|| vcommon::machinery("replay: variant"));
@@ -148,9 +148,12 @@ pub fn main() -> ! {
     if let Ok(only) = std::env::var("E3_ONLY") {
         scens.retain(|s| s.variant == Variant::Sync || s.name(&sigs).starts_with(&only));
     }
-    let bound = run.pick(2usize, 3usize);
+    // deviation levels up to `min_bound` always complete; deeper ones only while time allows
+    let min_bound = run.pick(2usize, 3usize);
+    let bound = run.pick(2usize, 5usize);
     let bound = std::env::var("E3_BOUND").ok().and_then(|s| s.parse().ok()).unwrap_or(bound);
-    let time_cap = run.pick(100.0, 900.0);
+    let time_cap = run.pick(100.0, 600.0);
+    let t_explore = run.elapsed();
 
     let mut states: BTreeSet<u64> = BTreeSet::new();
     let mut edges: BTreeSet<u64> = BTreeSet::new();
@@ -159,7 +162,6 @@ pub fn main() -> ! {
     let mut samples = vcommon::Samples::new(10);
     let mut per_variant: BTreeMap<String, usize> = BTreeMap::new();
     let mut cancelled_runs = 0usize;
-    let mut exhaustive = true;
     let mut completed = 0usize;
     // baseline observations of the synchronous runs: (k, dir, case) -> obs
     let mut base: BTreeMap<(usize, String, usize), Value> = BTreeMap::new();
@@ -174,8 +176,8 @@ pub fn main() -> ! {
             completed = bound;
             break;
         }
-        if d > 1 && run.elapsed() > time_cap {
-            exhaustive = false;
+        if d > min_bound && run.elapsed() - t_explore > time_cap {
+            // the deeper level was not started: the completed bound is reported
             break;
         }
         let results = vcommon::par_map(flat.len(), jobs, |i| exec(&built, &sigs, &scens[flat[i].0], &flat[i].1));
@@ -241,7 +243,8 @@ pub fn main() -> ! {
                         }
                     }
                 }
-                if outcome == "done" && obs["ledger"] != b["ledger"] {
+                let already = viols.iter().any(|v| v.0.starts_with("leak:") || v.0.starts_with("heap:") || v.0.starts_with("foreign-free:"));
+                if outcome == "done" && obs["ledger"] != b["ledger"] && !already {
                     viols.push((format!("diff:ledger:{}:{lab}", s.dir_name()), format!("guest heap after completion: async run {} vs synchronous run {}", obs["ledger"], b["ledger"])));
                 }
                 if s.dir == Dir::Export && outcome == "done" {
@@ -275,6 +278,8 @@ pub fn main() -> ! {
     for (key, what, detail) in found {
         run.violation(&key, &what, detail);
     }
+    // exhaustive with respect to the completed deviation bound (reported below)
+    let exhaustive = completed >= min_bound.min(bound);
     let coverage = json!({
         "states": states.len(),
         "transitions": edges.len(),
